@@ -51,6 +51,14 @@ def _ConvertFunctionType(ft: LinearIR.FunctionType) -> WebAssembly.FunctionType:
     argTypes = []
     resultTypes = []
 
+    # Only numbers can be passed to and returned from a function so far; the
+    # struct types used for vectors, matrices and arrays are no value types
+    for t in list(ft.Arguments.values()) + [ft.ReturnType]:
+        if not (t.IsScalar() or t.IsVoid()):
+            raise RuntimeError(
+                f"Unsupported type in a function signature for WebAssembly: {t}"
+            )
+
     for argType in ft.Arguments.values():
         argTypes.append(_ConvertType(argType))
 
